@@ -8,13 +8,13 @@ they reserved themselves or that they were handed by the machine.
 -/
 namespace JsonVerif
 
-theorem endFragment_ok {s : PS} {i : Nat} (h : i < s.cm.size) : ∃ s', s.endFragment i = .ok s' := by
+theorem endFragment_ex {s : PS} {i : Nat} (h : i < s.cm.size) : ∃ s', s.endFragment i = .ok s' := by
   unfold PS.endFragment
   have : s.cm[i]? = some s.cm[i] := Array.getElem?_eq_getElem h
   simp [this]
 
 theorem endFragment_np {s : PS} {i : Nat} (h : i < s.cm.size) : s.endFragment i ≠ .error .panic := by
-  obtain ⟨s', e⟩ := endFragment_ok h; simp [e]
+  obtain ⟨s', e⟩ := endFragment_ex h; simp [e]
 
 theorem begin_lt (s : PS) : s.cm.size < s.reserve.cm.size := by
   simp [PS.reserve]
@@ -64,7 +64,7 @@ theorem lexBool_np (s : PS) : lexBool s ≠ .error .panic := by
       · rename_i e h; intro hh; cases hh; exact expectChars_np _ _ h
       · rename_i s1 h1
         have := (expectChars_adv h1).2.2
-        have := endFragment_ok (Nat.lt_of_lt_of_le (begin_lt s) this)
+        have := endFragment_ex (Nat.lt_of_lt_of_le (begin_lt s) this)
         obtain ⟨s2, e2⟩ := this
         simp [e2]
     · split
@@ -72,7 +72,7 @@ theorem lexBool_np (s : PS) : lexBool s ≠ .error .panic := by
         · rename_i e h; intro hh; cases hh; exact expectChars_np _ _ h
         · rename_i s1 h1
           have := (expectChars_adv h1).2.2
-          have := endFragment_ok (Nat.lt_of_lt_of_le (begin_lt s) this)
+          have := endFragment_ex (Nat.lt_of_lt_of_le (begin_lt s) this)
           obtain ⟨s2, e2⟩ := this
           simp [e2]
       · simp
@@ -227,7 +227,7 @@ theorem startArray_np (s : PS) : startArray s ≠ .error .panic := by
       have hs := ((expectChar_adv h1).trans (skipWs_adv h2)).2.2
       split
       · split
-        · have := endFragment_ok (s := s2.adv ‹Char› ‹List Char›) (i := s.cm.size)
+        · have := endFragment_ex (s := s2.adv ‹Char› ‹List Char›) (i := s.cm.size)
             (by simp [PS.adv]; exact Nat.lt_of_lt_of_le (begin_lt s) hs)
           obtain ⟨s3, e3⟩ := this
           simp [e3]
@@ -281,7 +281,7 @@ theorem startObject_np (o : ParseOptions) (s : PS) : startObject o s ≠ .error 
       have hs := ((expectChar_adv h1).trans (skipWs_adv h2)).2.2
       split
       · split
-        · have := endFragment_ok (s := s2.adv ‹Char› ‹List Char›) (i := s.cm.size)
+        · have := endFragment_ex (s := s2.adv ‹Char› ‹List Char›) (i := s.cm.size)
             (by simp [PS.adv]; exact Nat.lt_of_lt_of_le (begin_lt s) hs)
           obtain ⟨s3, e3⟩ := this
           simp [e3]
@@ -338,7 +338,7 @@ theorem contArray_np {i : Nat} {s : PS} (hi : i < s.cm.size) : contArray i s ≠
     · split
       · simp
       · split
-        · have := endFragment_ok (s := s0.adv ‹Char› ‹List Char›) (i := i)
+        · have := endFragment_ex (s := s0.adv ‹Char› ‹List Char›) (i := i)
             (by simp [PS.adv]; omega)
           obtain ⟨s3, e3⟩ := this
           simp [e3]
@@ -360,7 +360,7 @@ theorem contObject_np {o : ParseOptions} {i : Nat} {s : PS} (hi : i < s.cm.size)
           · rename_i e h; intro hh; cases hh; exact lexKeyColon_np _ _ h
           · simp
       · split
-        · have := endFragment_ok (s := s0.adv ‹Char› ‹List Char›) (i := i)
+        · have := endFragment_ex (s := s0.adv ‹Char› ‹List Char›) (i := i)
             (by simp [PS.adv]; omega)
           obtain ⟨s3, e3⟩ := this
           simp [e3]
